@@ -3,8 +3,11 @@ package main
 import (
 	"bytes"
 	"fmt"
+	"math/rand"
 	"os"
 	"path/filepath"
+	"sync"
+	"sync/atomic"
 
 	"hcverif/harness/internal/fstrace"
 
@@ -77,5 +80,110 @@ func storageFaults(c *Ctx, who string) {
 				os.RemoveAll(filepath.Dir(d))
 			}
 		}
+	}
+}
+
+// c18ConcurrentSet: several goroutines set the same key at the same time (hc saves entities from per-connection
+// goroutines), each with values of its own letter and varying lengths, while a reader keeps getting the key. Every value
+// read — during and after — is one of the values that were set, in full (never a mixture of two writers' bytes).
+func c18ConcurrentSet(c *Ctx) {
+	for round := 0; round < c.Pick(3, 40) && c.NumViolations() < 3; round++ {
+		id := c.CaseID("concurrent-set", round)
+		if c.Skip(id) {
+			continue
+		}
+		r := c.CaseRng("concurrent-set", round)
+		dir := filepath.Join(c.ScratchDir(), "store")
+		st, err := util.NewFileStorage(dir)
+		if err != nil {
+			c.Violate("storage cannot be created", id, dir, "storage", err.Error())
+			continue
+		}
+		st2, _ := util.NewFileStorage(dir) // a second storage object on the same directory (db.NewDatabase opens its own)
+		nw, per := 2+r.Intn(3), 120+r.Intn(100)
+		uniform := func(b []byte) bool {
+			for _, x := range b {
+				if x != b[0] {
+					return false
+				}
+			}
+			return len(b) > 0 && b[0] >= 'A' && int(b[0]) < 'A'+nw
+		}
+		st.Set("k", []byte{'A'})
+		var bad atomic.Value
+		var wg sync.WaitGroup
+		stop := make(chan struct{})
+		for w := 0; w < nw; w++ {
+			wg.Add(1)
+			go func(w int) {
+				defer wg.Done()
+				s := st
+				if w%2 == 1 {
+					s = st2
+				}
+				rr := rand.New(rand.NewSource(int64(round*10 + w)))
+				for i := 0; i < per; i++ {
+					n := 1 + rr.Intn(70000)
+					if i%3 == 0 {
+						n = 1 + rr.Intn(200)
+					}
+					if err := s.Set("k", bytes.Repeat([]byte{byte('A' + w)}, n)); err != nil {
+						bad.Store(fmt.Sprintf("Set returned %v", err))
+					}
+				}
+			}(w)
+		}
+		go func() {
+			for {
+				select {
+				case <-stop:
+					return
+				default:
+				}
+				if b, err := st.Get("k"); err != nil {
+					bad.Store(fmt.Sprintf("Get of a live key fails while it is being overwritten: %v", err))
+				} else if !uniform(b) {
+					bad.Store(fmt.Sprintf("Get returned %d bytes that are not one writer's value (starts %q)", len(b), trunc(string(b), 12)))
+				}
+			}
+		}()
+		wg.Wait()
+		close(stop)
+		final, ferr := st.Get("k")
+		in := map[string]interface{}{"writers": nw, "sets_per_writer": per, "key": "k"}
+		if v := bad.Load(); v != nil {
+			c.Violate("C18: concurrent Sets of one key: a Get does not return one of the values that were set", id, in, "a value some writer set, in full", v.(string))
+		} else if ferr != nil || !uniform(final) {
+			c.Violate("C18: concurrent Sets of one key: the stored value is a mixture of two writers' values", id, in, "a value some writer set, in full",
+				fmt.Sprintf("%d bytes, err=%v, starts %q", len(final), ferr, trunc(string(final), 12)))
+		}
+		c.Count(id, true, "stream:concurrent-set")
+		os.RemoveAll(filepath.Dir(dir))
+	}
+}
+
+// c18TempSpellings: every spelling of a key whose file is another key's temporary sibling is refused, or — if it is
+// accepted — keeps its value when the other key is written.
+func c18TempSpellings(c *Ctx) {
+	for i, sp := range []string{"k.tmp", "k.tmp/", "k.tmp/.", "./k.tmp", "x/../k.tmp", "k.t:mp", "k.tm:p", ":k.tmp:", "k.tmp:", "k..tmp", "k.TMP", "k.tmp ", "k.tmp/x/.."} {
+		id := fmt.Sprintf("temp-spelling#%d", i)
+		if c.Skip(id) {
+			continue
+		}
+		dir := filepath.Join(c.ScratchDir(), "store")
+		st, _ := util.NewFileStorage(dir)
+		err1 := st.Set(sp, []byte("mine"))
+		st.Set("k", []byte("other"))
+		st.Set("k", []byte("other-again"))
+		got, gerr := st.Get(sp)
+		if err1 == nil && (gerr != nil || string(got) != "mine") {
+			c.Violate("storage Get returns a value different from the last value set (the key's file is another key's temporary file)", id,
+				map[string]interface{}{"key": sp, "then": "Set(\"k\", …) twice"}, "mine (or the key refused by Set)", fmt.Sprintf("%q err=%v", got, gerr))
+		}
+		if err1 != nil && gerr == nil {
+			c.Violate("storage Get returns a value for a key that Set refused", id, map[string]interface{}{"key": sp}, "error", string(got))
+		}
+		c.Count(id, err1 != nil, "stream:temp-spelling", fmt.Sprintf("temp-spelling:refused=%v", err1 != nil))
+		os.RemoveAll(filepath.Dir(dir))
 	}
 }
